@@ -91,7 +91,8 @@ def _tame(rng, T, vals):
             if k == "b":
                 return rng.random() < 0.5
             if k == "u":
-                return rng.choice([0, 1, 2, 3, 5])
+                top = {1: 200, 2: 60000, 4: 3000000000, 8: 3000000000}[np.dtype(T["d"]).itemsize]
+                return rng.choice([0, 1, 2, 3, 5, top, top - 1])      # values with the top bit set, too
             if k == "i":
                 return rng.choice([0, 1, -1, 2, -3, 4])
             return rng.choice([0.0, 0.5, -1.5, 2.0, 3.0, -0.5])
@@ -189,6 +190,8 @@ def emit_builder(T, var, ind, depth, lines, optional=False):
             lines.append("%sbuilder.boolean(%s)" % (pad, ("%s == True" % var) if optional else var))
         elif kind == "f":
             lines.append("%sbuilder.real(%s)" % (pad, ("%s + 0.0" % var) if optional else var))
+        elif kind == "u" and depth % 2 == 1 and not optional:
+            lines.append("%sbuilder.real(%s)" % (pad, var))            # integers are accepted by real(), too
         else:
             lines.append("%sbuilder.integer(%s)" % (pad, ("%s + 0" % var) if optional else var))
     else:
